@@ -3,7 +3,7 @@
 # every "/repo" path rewritten) so that seeded defects can be applied and checked without touching /repo while
 # other checks are running against it.  Scratch: remove with `tools/seediso.sh clean`.
 set -e
-ROOT=/tmp/sv
+ROOT=${SV_ROOT:-/tmp/sv}
 if [ "$1" = "clean" ]; then
   git -C /repo worktree remove --force $ROOT/repo 2>/dev/null || true
   rm -rf $ROOT
